@@ -14,6 +14,8 @@ type c12World struct {
 	e       *types.Named // an enum
 	u       *types.Named // a union (interface) whose member is t
 	n       *types.Named // type N []S
+	tree    *types.Named // type Tree []Tree
+	ring    *types.Named // type Ring [2]*Ring
 	tm      *types.Named // time.Time look-alike
 	date    *types.Named // a local named time whose name contains a symbolic part
 	enums   enumsMap
@@ -24,9 +26,9 @@ type c12World struct {
 
 // c12Shape: a field type of bounded depth over the world's types.
 func (w *c12World) shape(tag string, depth int) types.Type {
-	n := 13
+	n := 15
 	if depth <= 0 {
-		n = 9
+		n = 11
 	}
 	kinds := []types.BasicKind{types.Int, types.String, types.Bool, types.Float64, types.Uint8}
 	switch vfChoice(tag+".shape", n) {
@@ -49,10 +51,14 @@ func (w *c12World) shape(tag string, depth int) types.Type {
 	case 8:
 		return types.NewNamed(types.NewTypeName(0, w.lib, "ID"+tag[len(tag)-1:], nil), types.Typ[types.Int64], nil)
 	case 9:
-		return types.NewSlice(w.shape(tag+"[]", depth-1))
+		return w.tree // a cycle with no struct on it
 	case 10:
-		return types.NewArray(w.shape(tag+"[n]", depth-1), int64(vfChoice(tag+".len", 3)))
+		return w.ring
 	case 11:
+		return types.NewSlice(w.shape(tag+"[]", depth-1))
+	case 12:
+		return types.NewArray(w.shape(tag+"[n]", depth-1), int64(vfChoice(tag+".len", 3)))
+	case 13:
 		return types.NewMap(types.Typ[types.String], w.shape(tag+"{}", depth-1))
 	default:
 		return types.NewPointer(w.shape(tag+"*", depth-1))
@@ -133,6 +139,10 @@ func HC12_typeGraph() {
 	w.e = types.NewNamed(types.NewTypeName(0, lib, "E", nil), types.Typ[types.Int], nil)
 	w.u = types.NewNamed(types.NewTypeName(0, lib, "U", nil), c11Interface(lib, []string{"isA"}), nil)
 	w.n = types.NewNamed(types.NewTypeName(0, lib, "N", nil), types.NewSlice(w.s), nil)
+	w.tree = types.NewNamed(types.NewTypeName(0, lib, "Tree", nil), nil, nil)
+	w.tree.SetUnderlying(types.NewSlice(w.tree))
+	w.ring = types.NewNamed(types.NewTypeName(0, lib, "Ring", nil), nil, nil)
+	w.ring.SetUnderlying(types.NewArray(types.NewPointer(w.ring), 2))
 	w.tm = c18TimeNamed("time", "time", "Time")
 	// a user-defined time type: it is a date iff its name contains "date" in any case
 	dname := "My" + vfString("timeName", 0, vfParam("C12.name", 4), "alpha") + "X"
@@ -168,7 +178,15 @@ func HC12_typeGraph() {
 	ana := &Analysis{Types: map[types.Type]Type{}, Pkg: root}
 	ctx := context{rootPackage: root, enums: w.enums, unions: w.unions}
 	var node Type
-	panicked, rt, msg := vfCatch(func() { node = ana.handleType(w.s, ctx) })
+	var panicked, rt bool
+	var msg string
+	terminated := vfTerminates(func() {
+		panicked, rt, msg = vfCatch(func() { node = ana.handleType(w.s, ctx) })
+	})
+	vfAssert(terminated, "C12/analysis-of-recursive-declarations-terminates")
+	if !terminated {
+		return
+	}
 	vfObserve("outcome", msg)
 	vfAssert(!rt, "C12/analysis-no-runtime-error")
 	if panicked {
